@@ -6,6 +6,7 @@ import (
 	"fmt"
 	"io"
 	"log"
+	"net"
 	"os"
 	"sort"
 	"strings"
@@ -46,6 +47,36 @@ func hangBound() time.Duration {
 }
 
 func noteHang() { atomic.StoreInt32(&hangSeen, 1) }
+
+// hangProbe decides, after a client has waited out its (two minute) timeout,
+// whether the server is hanging or the machine is merely slow: five fresh
+// connections must each be answered (no-op) within two seconds, and the victim
+// connection must still be silent ten seconds after that.  Only then is the
+// missing reply called a hang.
+func hangProbe(st *stack.Stack, victim *wire.Client) bool {
+	for i := 0; i < 5; i++ {
+		c := wire.NewClient(st.Dial(0), true)
+		c.Timeout = 2 * time.Second
+		out, err := c.Do(wire.Cmd{Kind: wire.Noop})
+		c.Close()
+		if err != nil || out.Class != wire.OK {
+			return false
+		}
+	}
+	victim.C.SetReadDeadline(time.Now().Add(10 * time.Second))
+	_, err := victim.R.Peek(1)
+	ne, ok := err.(net.Error)
+	return err != nil && ok && ne.Timeout()
+}
+
+// undecidedOrHang is undecided unless the error is a client timeout that
+// hangProbe confirms as a hang, which is reported as a failure of the case.
+func undecidedOrHang(t *rapid.T, rec *evid.Rec, st *stack.Stack, victim *wire.Client, err error, msg string) {
+	if err == wire.ErrTimeout && hangProbe(st, victim) {
+		t.Fatalf("%s: no reply within %v, and still none ten seconds later, while five fresh connections were each answered within two seconds: the request hangs", msg, victim.Timeout)
+	}
+	undecided(t, rec, msg)
+}
 
 // undecided marks a rapid case as inconclusive (harness timeout in a property
 // that is not about hanging) and abandons it.
